@@ -111,6 +111,25 @@ pub fn dump<'tcx>(cx: &Ctx<'tcx>, top: &mut Vec<(&'static str, J)>) {
                         if let Ok(alloc) = tcx.eval_static_initializer(did) {
                             let a = alloc.inner();
                             o.push(("size", J::n(a.len())));
+                            if a.len() <= 64 && a.provenance().ptrs().is_empty() {
+                                let bytes =
+                                    a.inspect_with_uninit_and_ptr_outside_interpreter(0..a.len());
+                                let hex: String =
+                                    bytes.iter().map(|b| format!("{:02x}", b)).collect();
+                                o.push(("bytes", J::s(hex)));
+                            }
+                            if (ty.is_integral() || ty.is_bool() || ty.is_char())
+                                && a.len() <= 16
+                                && a.provenance().ptrs().is_empty()
+                            {
+                                let bytes =
+                                    a.inspect_with_uninit_and_ptr_outside_interpreter(0..a.len());
+                                let mut v: u128 = 0;
+                                for (i, b) in bytes.iter().enumerate() {
+                                    v |= (*b as u128) << (8 * i);
+                                }
+                                o.push(("int", J::s(format!("{}", v))));
+                            }
                             if a.provenance().ptrs().is_empty() && a.len() <= 1 << 16 {
                                 let id = tcx.reserve_and_set_memory_alloc(alloc);
                                 let v = ConstValue::Indirect {
@@ -165,29 +184,21 @@ fn walk_cells<'tcx>(
     if depth > 40 || !seen.insert(ty) {
         return;
     }
+    if std::env::var("VERIF_DEBUG_WALK").is_ok() {
+        eprintln!("WALK {} {} {:?}", depth, path, ty.kind());
+    }
     match ty.kind() {
         ty::Adt(def, args) => {
             let name = cx.path(def.did());
-            let interior = [
-                "core::cell::UnsafeCell",
-                "core::cell::Cell",
-                "core::cell::RefCell",
-                "core::cell::OnceCell",
-                "core::cell::once::OnceCell",
-                "core::cell::lazy::LazyCell",
-                "std::sync::OnceLock",
-                "std::sync::once_lock::OnceLock",
-                "std::sync::Mutex",
-                "std::sync::RwLock",
-                "std::sync::LazyLock",
-                "std::sync::lazy_lock::LazyLock",
-                "std::sync::Once",
+            let krate = tcx.crate_name(def.did().krate).to_string();
+            let last = name.rsplit("::").next().unwrap_or("").to_string();
+            let std_like = ["core", "std", "alloc", "once_cell", "parking_lot", "lock_api"];
+            let cell_names = [
+                "UnsafeCell", "Cell", "RefCell", "OnceCell", "LazyCell", "OnceLock", "Mutex",
+                "RwLock", "LazyLock", "Once", "Lazy", "SyncUnsafeCell", "Condvar",
             ];
-            if interior.contains(&name.as_str())
-                || name.starts_with("core::sync::atomic::Atomic")
-                || name.starts_with("std::sync::poison::")
-                || name.starts_with("std::sync::nonpoison::")
-                || name.starts_with("once_cell::")
+            if std_like.contains(&krate.as_str())
+                && (cell_names.contains(&last.as_str()) || last.starts_with("Atomic"))
             {
                 out.push(J::Arr(vec![J::s(path.clone()), J::s(cx.ty(ty))]));
                 // still walk the payload (e.g. OnceLock<Source>)
@@ -200,6 +211,10 @@ fn walk_cells<'tcx>(
                 return;
             }
             if def.is_phantom_data() {
+                // type-erased containers (RawVec) carry their element type only here
+                for t in args.types() {
+                    walk_cells(cx, t, path, out, seen, depth + 1);
+                }
                 return;
             }
             for v in def.variants().iter() {
@@ -221,6 +236,9 @@ fn walk_cells<'tcx>(
             path.push_str(".*");
             walk_cells(cx, *t, path, out, seen, depth + 1);
             path.truncate(l);
+        }
+        ty::Pat(t, _) => {
+            walk_cells(cx, *t, path, out, seen, depth + 1);
         }
         ty::Tuple(ts) => {
             for (i, t) in ts.iter().enumerate() {
